@@ -32,15 +32,38 @@ import c13_sweep as sweep
 import c13_corpus
 from common import cz, cbool, clist, cpair, cn
 
-THEOREMS = ['C13_dedup_merges_equal', 'C13_dedup_merges_tested',
-            'C13_desc_eqb_sound', 'C13_dedup_survivor_smallest',
-            'C13_dedup_survivor_minimal', 'C13_dedup_covers',
-            'C13_dedup_idempotent', 'C13_renumber_den', 'C13_dedup_den',
-            'C13_dedup_helpers_survive', 'C13_dedup_all_empty_refuted',
-            'C13_inline_den', 'C13_inline_score_den', 'C13_inline_complete',
-            'C13_inline_model', 'C13_inline_total',
-            'C13_acyclic_unique_model', 'C13_fill_geometry_den',
-            'C13_fill_flags_lockstep', 'C13_options_same_geometry']
+THEOREMS = [
+    'C13_dedup_merges_equal',
+    'C13_dedup_merges_tested',
+    'C13_desc_eqb_sound',
+    'C13_hash_consistent',
+    'C13_dedup_survivor_smallest',
+    'C13_dedup_survivor_minimal',
+    'C13_dedup_covers',
+    'C13_dedup_idempotent',
+    'C13_renumber_den',
+    'C13_dedup_den',
+    'C13_dedup_den_any_scalar',
+    'C13_dedup_helpers_survive',
+    'C13_dedup_writer_finds_surfaces',
+    'C13_remove_empty_sound',
+    'C13_finish_sound',
+    'C13_written_same_dedup',
+    'C13_vden_model',
+    'C13_dedup_all_empty_refuted',
+    'C13_inline_den',
+    'C13_inline_score_den',
+    'C13_find_occurrences_sound',
+    'C13_inline_complete',
+    'C13_inline_model',
+    'C13_inline_total',
+    'C13_acyclic_unique_model',
+    'C13_fill_geometry_den',
+    'C13_cell_transform_den',
+    'C13_fill_geometry_den_tr',
+    'C13_fill_flags_lockstep',
+    'C13_options_same_geometry',
+]
 TRUSTED = [
     'hand-written model coq/C13/Model.v (modelled, tied by execution only)',
     'Python dict lookup by hash then ==: modelled as "first stored key equal '
@@ -64,7 +87,7 @@ ASSUMPTIONS = [
     'transformations only the sweep covers it',
 ]
 HEADER = ('From Coq Require Import List NArith ZArith Bool PrimFloat.\n'
-          'From T4V Require Import Base.Scalar C13.Model C13.Exec.\n'
+          'From T4V Require Import Base.Scalar C13.Model C13.ModelTr C13.Exec.\n'
           'Open Scope Z_scope.\n')
 
 WITNESS_HELPER = '''helper plane merged with a user plane
@@ -245,6 +268,19 @@ def tie_eq(res, rng, n):
             laws.append('equal surfaces hash differently')
         if (sb in {sa: 1}) != eq:
             laws.append('dict lookup disagrees with ==')
+        # __hash__ is the tuple hash of exactly the compared components
+        # (Model.desc_hash with Python's own element and tuple hashes)
+        for d, surf in ((a, sa), (b, sb)):
+            comps = (surf.type_surface, tuple(d['params']))
+            if d['trans'] is not None:
+                comps += (tuple(float(v) for v in d['trans'][0]),
+                          tuple(float(v) for v in d['trans'][1]))
+            if hash(surf) != hash(comps):
+                laws.append('__hash__ is not the tuple hash of (type, params'
+                            '[, translation, matrix])')
+        for x, y in zip(a['params'], b['params']):
+            if x == y and hash(x) != hash(y):
+                laws.append(f'element hash does not respect ==: {x!r} {y!r}')
         # independent reading: same type, same values
         if eq != (tie.desc_key(a) == tie.desc_key(b)):
             res.violation('impl-violation',
@@ -570,6 +606,60 @@ def tie_fill(res, rng, n):
                       found_input=False)
 
 
+def tie_fill_tr(res, rng, n):
+    '''The FILL loop WITH transformations on generated decks: cell table
+    captured from the real conversion before and after the loop vs
+    ModelTr.fill_loop_tr.'''
+    cases, meta = [], []
+    tries = 0
+    while len(cases) < n and tries < 4 * n:
+        tries += 1
+        dck, info = sweep.gen_deck(rng)
+        if info['depth'] == 0:
+            continue
+        text = deckmod.render(dck)
+        fd, fg = rng.random() < 0.5, rng.random() < 0.5
+        args = (['--always-inline-filled'] if fd else []) + \
+            (['--always-inline-filling'] if fg else []) + \
+            deckmod.lattice_args(dck)
+        got = tie.impl_fill_tr(text, args)
+        if got is None:
+            res.count('fill_tr:not-captured')
+            continue
+        (cells, tinfo, ckey, skey, ncache), (post, ckey2, skey2) = got
+        if ncache:
+            res.count('fill_tr:cache-not-empty')
+            continue
+        res.seen(('fill_tr', text, fd, fg), nontrivial=bool(tinfo))
+        res.count(f'fill_tr:{int(fd)}{int(fg)}:new-cells='
+                  f'{min((ckey2 - ckey) // 5 * 5, 30)}')
+        res.count('fill_tr:with-transformations' if tinfo
+                  else 'fill_tr:no-transformation')
+        cases.append(cpair(cbool(fd), cbool(fg), tie.coq_cells(cells),
+                           tie.coq_tinfo(tinfo), cz(ckey), cz(skey),
+                           f'(Ok ({tie.coq_cells(post)}, {cz(ckey2)}, '
+                           f'{cz(skey2)}))'))
+        meta.append((text, args))
+    bad, errs = common.run_case_files(
+        'c13_filltr', HEADER,
+        'bool * bool * list (Z * mcell) * list (Z * (option (list float) * '
+        'list (list float))) * Z * Z * res (list (Z * mcell) * Z * Z)',
+        'check_fill_tr', cases, chunk=40)
+    res.obligation(f'tie:fill_tr ({len(cases)} decks: FILL loop with '
+                   'transformations (pot_fill, cell_transform and its cache, '
+                   'pot_transform numbering) = ModelTr.fill_loop_tr)',
+                   not bad and not errs and len(cases) >= n // 2,
+                   f'{len(bad)} disagreements {errs[:1]}')
+    for idx in bad[:5]:
+        text, args = meta[idx]
+        res.violation('correspondence',
+                      'the FILL loop with transformations differs from the '
+                      f'model (options {args})',
+                      {'input': {'deck': text, 'vectors': [args]},
+                       'theorem_or_correspondence': 'tie:fill_tr'},
+                      found_input=False)
+
+
 # ---------------------------------------------------------------------------
 # sweep
 # ---------------------------------------------------------------------------
@@ -594,7 +684,7 @@ def classify_failures(text, lat, status):
 
 
 def run_sweep(res, tier, rng):
-    n_decks = 80 if tier == 'quick' else 600
+    n_decks = 70 if tier == 'quick' else 600
     n_points = 120 if tier == 'quick' else 200
     n_sigma = 100 if tier == 'quick' else 200
     jobs, metas = [], []
@@ -681,10 +771,11 @@ def run(res, tier, seed, proofs_ok):
     run_corpus(res)
     tie_eq(res, rng, 300 if quick else 4000)
     tie_dedup(res, rng, 250 if quick else 2000)
-    tie_renumber(res, rng, 200 if quick else 1500)
+    tie_renumber(res, rng, 150 if quick else 1500)
     tie_finish(res, rng, 250 if quick else 2000)
     tie_inlining(res, rng, 250 if quick else 2000)
-    tie_fill(res, rng, 200 if quick else 1500)
+    tie_fill(res, rng, 150 if quick else 1500)
+    tie_fill_tr(res, rng, 80 if quick else 800)
     run_sweep(res, tier, rng)
 
 
